@@ -369,7 +369,7 @@ def o175(ctx):
             ctx.count(1)
 
 
-def obligations():
+def _obligations():
     return [
         Obligation("O17.1", "library calls of loaders, mdoc and wedge-list builders exist in the installed pandas", o171, floor=15),
         Obligation("O17.2", "defocus readers: U,V x 1e-4, mean=(U+V)/2, same columns; ctffind4 header skipped", o172, floor=15),
@@ -377,3 +377,7 @@ def obligations():
         Obligation("O17.4", "wedge lists: column wiring, per-tomogram lookup by tomo_id, min/max pairing", o174, floor=25),
         Obligation("O17.5", "mdoc: write filter truth table, format characters, sort only sorts, removal position->label once", o175, floor=12),
     ]
+
+
+def obligations():
+    return _obligations() + [effects_obligation("C17")]
